@@ -161,6 +161,9 @@ func c08RsExec(cs c08RsCase) (o c08RsObs) {
 	}()
 
 	tr := T()
+	if cs.deaths > 2 {
+		tr.MaxIdleConnsPerHost = cs.deaths // (default 2: the pool would drop the third warm connection)
+	}
 	url := "http://" + ln.Addr().String() + "/"
 	var bodies []*c08RsBody
 	var bmu sync.Mutex
